@@ -3,6 +3,7 @@
 /// Family description -> model (`map`/`reg`/`endmap`/`mem` lines).  The model answers with the
 /// layout IT computes; the implementation side of the diff is the macro-generated constants.
 fn send_definitions(rep: &mut Report, with_oracle: bool) {
+    rep.expect(format!("c20 profile {}", profile()), "ok".into());
     for m in MAPS {
         rep.expect(format!("c20 map {} {} {}", m.name, m.base, m.endian), "ok".into());
         let mut running = 0usize;
@@ -39,13 +40,6 @@ fn send_definitions(rep: &mut Report, with_oracle: bool) {
     }
     for m in MEMS {
         rep.expect(format!("c20 mem {} {}", m.name, m.maps.join(" ")), "ok".into());
-    }
-    if with_oracle {
-        for (ty, l, m) in EXCLUDED_BITFIELDS {
-            // F-C20-3: cannot be instantiated (the declaration does not compile); model only
-            rep.expect(format!("c20 compiles {ty} {l} {m}"), "nocompile".into());
-            rep.count("bitfield-excluded:does-not-compile(model only)");
-        }
     }
 }
 
@@ -225,43 +219,61 @@ fn typed_batteries(cx: &mut Ctx, name: &str, rng: &mut Rng, thorough: bool) {
                     inst.exec(cx, &format!("sweep {mn} {rn} 0 {} 1", mask_w(bits)));
                 }
                 for v in scalar_values(bits, rng, n_rand) {
+                    inst.exec(cx, &format!("ser {mn} {rn} w:{v}"));
                     inst.exec(cx, &format!("wt {mn} {rn} w:{v}"));
                     inst.exec(cx, &format!("rd {mn} {rn}"));
                 }
             }
             Kind::Str => {
                 for s in string_values(len) {
+                    inst.exec(cx, &format!("ser {mn} {rn} s:{}", hex(&s)));
                     inst.exec(cx, &format!("wt {mn} {rn} s:{}", hex(&s)));
                     inst.exec(cx, &format!("rd {mn} {rn}"));
+                }
+                // bytes that only a RAW write can put there: valid non-ASCII UTF-8, invalid UTF-8,
+                // non-ASCII behind the terminating NUL
+                let addr = inst.regs[i].reg.address;
+                let saved = right_name(inst.sh_rights.get(addr).copied().unwrap_or(AccessRight::NA));
+                if len > 0 {
+                    inst.exec(cx, &format!("sar {mn} {rn} RW"));
+                    for raw in [&[0xc3u8, 0xa9, 0x00][..], &[0x61, 0xc3, 0xa9], &[0xff, 0x00], &[0x61, 0x00, 0xc3, 0xa9], &[0xc3], &[0x80], &[0x7f, 0x00, 0xff]] {
+                        let d = &raw[..raw.len().min(len)];
+                        inst.exec(cx, &format!("wr {addr} {}", hex(d)));
+                        inst.exec(cx, &format!("rd {mn} {rn}"));
+                        let mut full = d.to_vec();
+                        full.resize(len, 0);
+                        inst.exec(cx, &format!("parse {mn} {rn} {}", hex(&full)));
+                        full.iter_mut().skip(d.len()).for_each(|x| *x = 0x41);
+                        inst.exec(cx, &format!("parse {mn} {rn} {}", hex(&full)));
+                    }
+                    inst.exec(cx, &format!("sar {mn} {rn} {saved}"));
                 }
             }
             Kind::Bytes => {
                 for l in [len.saturating_sub(1), len, len + 1, 0] {
                     let b = rng.bytes(l);
+                    inst.exec(cx, &format!("ser {mn} {rn} b:{}", hex(&b)));
                     inst.exec(cx, &format!("wt {mn} {rn} b:{}", hex(&b)));
                     inst.exec(cx, &format!("rd {mn} {rn}"));
                 }
             }
             Kind::Bf { bits, signed, lsb, msb, .. } => {
                 for v in bf_values(bits, signed, lsb, msb, rng, 4) {
+                    inst.exec(cx, &format!("ser {mn} {rn} w:{v}"));
                     inst.exec(cx, &format!("wt {mn} {rn} w:{v}"));
                     inst.exec(cx, &format!("rd {mn} {rn}"));
                 }
             }
         }
     }
-    // direct trait calls: parse on foreign-length data, serialize
-    for i in 0..inst.regs.len().min(40) {
+    // direct trait calls: parse on data of foreign length / content
+    for i in 0..inst.regs.len() {
         let (mn, rn, len) = (inst.regs[i].map.name, inst.regs[i].reg.name, inst.regs[i].reg.len);
         for l in [0, 1, len.saturating_sub(1), len, len + 1, len + 9] {
             let mut d = rng.bytes(l);
             if rng.chance(1, 3) { for x in d.iter_mut() { *x &= 0x7f; } }
             if rng.chance(1, 3) && !d.is_empty() { let k = rng.below(d.len() as u64) as usize; d[k] = 0; }
-            let r = catch(|| match inst.mem.reg_op(i, Op::Parse(&d)) { Out::Val(v) => v, _ => unreachable!() });
-            let ans = match &r { Ok(Ok(v)) => format!("ok {}", v.show()), _ => res3(&r) };
-            cx.rep.case(&format!("parse {mn} {rn} {}", hex(&d)), matches!(r, Ok(Ok(_))));
-            cx.rep.count("op:parse");
-            cx.rep.expect(format!("c20 parse {mn} {rn} {}", hex(&d)), ans);
+            inst.exec(cx, &format!("parse {mn} {rn} {}", hex(&d)));
         }
     }
 }
@@ -287,6 +299,9 @@ fn raw_grid(cx: &mut Ctx, name: &str, rng: &mut Rng, slack: usize) {
         for len in 0..=(n + slack).saturating_sub(s).min(12) {
             let buf: Vec<u8> = (0..len).map(|k| (s * 7 + k * 13 + 1) as u8).collect();
             inst.exec(cx, &format!("wr {s} {}", hex(&buf)));
+            if len > 0 && (s + len) % 3 == 0 {
+                inst.exec(cx, &format!("wr {s} {}", hex(&buf))); // same bytes again
+            }
         }
     }
     for &(s, e) in &[(usize::MAX, usize::MAX), (usize::MAX - 1, usize::MAX), (usize::MAX, 0), (n, usize::MAX), (0, usize::MAX),
@@ -364,7 +379,17 @@ fn history(cx: &mut Ctx, name: &str, rng: &mut Rng, steps: usize) {
                 let l = match rng.below(5) { 0 => 0, 1 => len, _ => rng.below(len as u64 + 3) as usize };
                 inst.exec(cx, &format!("wr {a} {}", hex(&rng.bytes(l))));
             }
-            11 => inst.exec(cx, &format!("pg {}", near(rng))),
+            11 => {
+                if rng.bool() {
+                    inst.exec(cx, &format!("pg {}", near(rng)));
+                } else {
+                    // raw write of exactly what the range already holds
+                    let a = near(rng).min(n);
+                    let l = (rng.below(len as u64 + 3) as usize).min(n - a);
+                    let cur = inst.sh_raw[a..a + l].to_vec();
+                    inst.exec(cx, &format!("wr {a} {}", hex(&cur)));
+                }
+            }
             12 => inst.exec(cx, &format!("rd {mn} {rn}")),
             _ => {
                 let v = match kind {
@@ -374,6 +399,38 @@ fn history(cx: &mut Ctx, name: &str, rng: &mut Rng, steps: usize) {
                     Kind::Bytes => { let l = if rng.chance(4, 5) { len } else { len + 1 }; format!("b:{}", hex(&rng.bytes(l))) }
                 };
                 inst.exec(cx, &format!("wt {mn} {rn} {v}"));
+            }
+        }
+    }
+}
+
+/// every register observed (zero-length ones included), everything writable, then raw and typed
+/// writes around / over / exactly on every register, each raw one repeated with identical bytes
+fn observer_scenario(cx: &mut Ctx, name: &str, rng: &mut Rng) {
+    let Some(mut inst) = Inst::create(cx, name) else { return };
+    let n = inst.sh_raw.len();
+    let regs: Vec<(&'static str, &'static str, Range<usize>, bool)> =
+        inst.regs.iter().take(48).map(|r| (r.map.name, r.reg.name, r.range(), r.well_formed())).collect();
+    for (mn, rn, _, _) in &regs {
+        inst.exec(cx, &format!("sar {mn} {rn} RW"));
+        inst.exec(cx, &format!("obs {mn} {rn}"));
+    }
+    for (mn, rn, r, wf) in &regs {
+        let lo = r.start.saturating_sub(1);
+        let hi = (r.end + 1).min(n);
+        for (a, e) in [(lo, hi), (r.start, r.end), (lo, r.start), (r.end.min(n), hi), (r.start, r.start), (lo, (r.start + 1).min(n)), (r.start, (r.start + 1).min(n))] {
+            if a > e { continue; }
+            let cur = inst.sh_raw[a..e].to_vec();
+            inst.exec(cx, &format!("wr {a} {}", hex(&cur)));          // unchanged bytes
+            let fresh = rng.bytes(e - a);
+            inst.exec(cx, &format!("wr {a} {}", hex(&fresh)));
+            inst.exec(cx, &format!("wr {a} {}", hex(&fresh)));        // and again, now unchanged
+        }
+        if *wf {
+            // typed write of what the register reads (when it reads)
+            let i = inst.reg_index(mn, rn);
+            if let Ok(Out::Val(Ok(v))) = catch(|| inst.mem.reg_op(i, Op::Read)) {
+                inst.exec(cx, &format!("wt {mn} {rn} {}", v.show()));
             }
         }
     }
@@ -441,7 +498,13 @@ fn main() {
     flush(&mut rep, &args);
     {
         let mut cx = Ctx { rep: &mut rep };
-        for m in ["MemBf8LE", "MemBf16BE", "MemScLE", "MemMix", "MemMixRev"] {
+        for m in ["MemMix", "MemMixRev", "MemScLE", "MemScBE", "MemBfBase", "MemFar", "MemBf8BE"] {
+            observer_scenario(&mut cx, m, &mut rng);
+        }
+    }
+    {
+        let mut cx = Ctx { rep: &mut rep };
+        for m in ["MemBf8LE", "MemBf16BE", "MemScLE", "MemMix", "MemMixRev", "MemBfBase"] {
             raw_grid(&mut cx, m, &mut rng, 3);
         }
         if thorough {
@@ -451,7 +514,7 @@ fn main() {
         }
     }
     flush(&mut rep, &args);
-    for m in MEMS.iter().filter(|m| m.name.starts_with("MemBf")) {
+    for m in MEMS.iter().filter(|m| m.name.starts_with("MemBf") && m.name != "MemBfBase") {
         let mut cx = Ctx { rep: &mut rep };
         bitfield_sweeps(&mut cx, m.name, &mut rng, thorough, args.seed);
         flush(&mut rep, &args);
@@ -469,6 +532,6 @@ fn main() {
     rep.extra.insert("family".into(), json!({
         "maps": MAPS.len(), "registers": MAPS.iter().map(|m| m.regs.len()).sum::<usize>(), "memories": MEMS.len(),
         "bitfields_8_16": "all (lsb,msb) x {unsigned,signed} x {LE,BE}", "bitfields_32_64": "boundary (lsb,msb) pairs x {unsigned,signed} x {LE,BE}",
-        "excluded_not_compiling": EXCLUDED_BITFIELDS.len()}));
+        "bitfields_64_full_width": "included (compile since the i128 min/max fix)"}));
     rep.write(&args);
 }
